@@ -80,7 +80,7 @@ class Ctx:
         return self._inlined[ckey]
 
     # ---------------------------------------------------------- expansion
-    def xexpand(self, fn: FuncInfo, expr: ast.AST, depth: int = 3, stop: Iterable[str] = ()) -> ast.AST:
+    def xexpand(self, fn: FuncInfo, expr: ast.AST, depth: int = 3, stop: Iterable[str] = (), keep: Iterable[str] = ()) -> ast.AST:
         """
         Inline single-definition locals, trivially inlinable helper calls
         (functions / methods / closures of the repository whose body is a few
@@ -92,6 +92,7 @@ class Ctx:
         defs = self.defs(fn)
         stop = list(stop)
         stop_set = set(stop)
+        keep_set = set(keep)
         out = defs.expand(expr, stop=stop)
         if depth <= 0:
             return out
@@ -121,6 +122,8 @@ class Ctx:
                 if len(callees) != 1:
                     return node
                 callee = callees[0]
+                if callee.key in keep_set:
+                    return node  # a call the rule wants to see as a call
                 if callee.module.external or callee.is_async or callee is fn or any(isinstance(n, (ast.Yield, ast.YieldFrom)) for n in own_nodes(callee.node)):
                     return node
                 body = [s for s in callee.node.body if not is_log_call(s)]
@@ -139,12 +142,26 @@ class Ctx:
                         gb = bind_call_args(node, callee.params, skip_self=callee.cls is not None and bool(callee.params) and callee.params[0] in ("self", "cls"))
                         if pname in gb:
                             return clone(gb[pname])
+                # x = getattr(o, "a", SENTINEL); if x is SENTINEL: raise ...   is   x = o.a   for every value handed back
+                guarded_defaults: set = set()
+                for i_, st_ in enumerate(body):
+                    if isinstance(st_, ast.Assign) and len(st_.targets) == 1 and isinstance(st_.targets[0], ast.Name) and isinstance(st_.value, ast.Call) and isinstance(st_.value.func, ast.Name) and st_.value.func.id == "getattr" and len(st_.value.args) == 3 and isinstance(st_.value.args[1], ast.Constant) and isinstance(st_.value.args[1].value, str):
+                        var_, dflt_ = st_.targets[0].id, norm(st_.value.args[2])
+                        guarded_ = any(
+                            isinstance(g, ast.If) and not g.orelse and g.body and isinstance(g.body[-1], ast.Raise) and norm(g.test) in (f"{var_} is {dflt_}", f"{var_} == {dflt_}")
+                            for g in body[i_ + 1:]
+                        )
+                        if guarded_:
+                            guarded_defaults.add(dflt_)
                 # refusing guards (`if <test>: raise ...`, assert) do not change the value handed back
                 body = [
                     s
                     for s in body
                     if not (isinstance(s, ast.Assert) or (isinstance(s, ast.If) and not s.orelse and s.body and isinstance(s.body[-1], ast.Raise) and all(isinstance(b, ast.Raise) or is_log_call(b) for b in s.body)))
                 ]
+                # `if <ok>: return X` followed by nothing but a raise: X is the only value ever handed back
+                if len(body) >= 2 and isinstance(body[-1], ast.Raise) and isinstance(body[-2], ast.If) and not body[-2].orelse and body[-2].body and isinstance(body[-2].body[-1], ast.Return) and all(isinstance(x, (ast.Assign, ast.AnnAssign)) for x in body[-2].body[:-1]):
+                    body = body[:-2] + list(body[-2].body)
                 if not body or not isinstance(body[-1], ast.Return) or body[-1].value is None:
                     return node
                 if not all(isinstance(s, (ast.Assign, ast.AnnAssign)) and isinstance((s.targets[0] if isinstance(s, ast.Assign) else s.target), ast.Name) for s in body[:-1]):
@@ -153,6 +170,15 @@ class Ctx:
                     return node
                 cdefs = ctx.defs(callee)
                 ret = cdefs.expand(body[-1].value)
+                if guarded_defaults:
+                    class _GetAttr(ast.NodeTransformer):
+                        def visit_Call(self, n: ast.Call) -> ast.AST:  # noqa: N802
+                            self.generic_visit(n)
+                            if isinstance(n.func, ast.Name) and n.func.id == "getattr" and len(n.args) == 3 and isinstance(n.args[1], ast.Constant) and isinstance(n.args[1].value, str) and norm(n.args[2]) in guarded_defaults:
+                                return ast.Attribute(value=n.args[0], attr=n.args[1].value, ctx=ast.Load())
+                            return n
+
+                    ret = _GetAttr().visit(clone(ret))
                 params = callee.params
                 bound = bind_call_args(node, params, skip_self=callee.cls is not None and bool(params) and params[0] in ("self", "cls"))
                 if callee.cls is not None and params and params[0] == "self" and isinstance(node.func, ast.Attribute):
@@ -178,7 +204,7 @@ class Ctx:
 
         res = Inline().visit(out)
         if depth > 1 and ast.dump(res) != ast.dump(out):
-            return self.xexpand(fn, res, depth - 1, stop)
+            return self.xexpand(fn, res, depth - 1, stop, keep)
         return res
 
     # -------------------------------------------------------- exceptions
@@ -388,8 +414,9 @@ class Ctx:
         return st
 
 
-def bind_call_args(call: ast.Call, params: List[str], skip_self: bool = True) -> Dict[str, ast.expr]:
-    """Bind positional and keyword arguments of *call* to parameter names."""
+def bind_call_args(call: ast.Call, params: List[str], skip_self: bool = True, defs: Optional[Defs] = None) -> Dict[str, ast.expr]:
+    """Bind positional and keyword arguments of *call* to parameter names (with *defs*: also the constant-key entries of a
+    local dict display handed over as ``**local``)."""
     names = list(params)
     if skip_self and names and names[0] in ("self", "cls"):
         names = names[1:]
@@ -408,6 +435,32 @@ def bind_call_args(call: ast.Call, params: List[str], skip_self: bool = True) ->
     for kw in call.keywords:
         if kw.arg is not None:
             out[kw.arg] = kw.value
+        elif defs is not None and isinstance(kw.value, ast.Name):
+            disp = defs.single(kw.value.id)
+            if isinstance(disp, ast.Dict):
+                for k, v in zip(disp.keys, disp.values):
+                    if isinstance(k, ast.Constant) and isinstance(k.value, str):
+                        out.setdefault(k.value, v)
+    return out
+
+
+def dataclass_defaults(cls: ClassInfo) -> Dict[str, ast.expr]:
+    """Field -> default value expression of a dataclass / NamedTuple (`x: T = v`, `field(default=v)`, `field(default_factory=f)` as `f()`)."""
+    out: Dict[str, ast.expr] = {}
+    for st in cls.node.body:
+        if isinstance(st, ast.AnnAssign) and isinstance(st.target, ast.Name) and st.value is not None:
+            val = st.value
+            if isinstance(val, ast.Call) and ast.unparse(val.func).split(".")[-1] == "field":
+                kws = {k.arg: k.value for k in val.keywords}
+                if "default" in kws:
+                    val = kws["default"]
+                elif "default_factory" in kws:
+                    fac = kws["default_factory"]
+                    builtin = {"bytes": ast.Constant(b""), "str": ast.Constant(""), "int": ast.Constant(0), "list": ast.List([], ast.Load()), "dict": ast.Dict([], []), "tuple": ast.Tuple([], ast.Load())}
+                    val = builtin.get(ast.unparse(fac), ast.Call(func=fac, args=[], keywords=[]))
+                else:
+                    continue
+            out[st.target.id] = val
     return out
 
 
